@@ -694,6 +694,7 @@ func TestVerif_C19(t *testing.T) {
 	c19ClientGivesUp(run, t, htp)
 	t6 := time.Now()
 	c19ConfigSpace(run, w, htp)
+	c19HostileFraming(run, t)
 	t7 := time.Now()
 	c19ProviderTypes(run, w) // provider-type sweep (c19_providers.go); sets the global clock mock, nothing else runs now
 	run.Extra("provider_types_seconds", time.Since(t7).Seconds())
